@@ -221,7 +221,7 @@ pub fn string_to_number(s: &str) -> f64 {
     trimmed.parse::<f64>().unwrap_or(f64::NAN)
 }
 
-/// Value of a non-empty run of digits in radix 2, 8 or 16, rounded to the nearest double
+/// Value of a non-empty run of digits in a power-of-two radix, rounded to the nearest double
 /// (ties to even) however long the run is. `None` for an empty run or a character that is not
 /// a digit of the radix.
 pub fn parse_radix_digits(digits: &str, radix: u32) -> Option<f64> {
@@ -294,6 +294,52 @@ fn is_js_whitespace(c: char) -> bool {
             | '\u{205F}'
             | '\u{3000}'
     )
+}
+
+/// ECMAScript parseInt on an already stringified argument and the numeric value of the radix
+/// argument: skip leading white space, sign, optional `0x` prefix (radix 16 or unspecified),
+/// then the longest run of digits of the radix; NaN if there is none.
+pub fn parse_int_prefix(s: &str, radix: f64) -> f64 {
+    let s = s.trim_start_matches(is_js_whitespace);
+    let (negative, mut rest) = match s.strip_prefix('-') {
+        Some(rest) => (true, rest),
+        None => (false, s.strip_prefix('+').unwrap_or(s)),
+    };
+
+    let mut radix = to_int32(radix);
+    let mut strip_prefix = true;
+    if radix == 0 {
+        radix = 10;
+    } else if !(2..=36).contains(&radix) {
+        return f64::NAN;
+    } else if radix != 16 {
+        strip_prefix = false;
+    }
+    if strip_prefix && let Some(hex) = rest.strip_prefix("0x").or_else(|| rest.strip_prefix("0X")) {
+        rest = hex;
+        radix = 16;
+    }
+    let radix = radix as u32;
+
+    let end = rest
+        .find(|c: char| !c.is_digit(radix))
+        .unwrap_or(rest.len());
+    let digits = rest.get(..end).unwrap_or("");
+    if digits.is_empty() {
+        return f64::NAN;
+    }
+    let magnitude = if radix == 10 {
+        digits.parse::<f64>().unwrap_or(f64::NAN)
+    } else if radix.is_power_of_two() {
+        parse_radix_digits(digits, radix).unwrap_or(f64::NAN)
+    } else {
+        // Exact up to 2^53; beyond that the specification allows an approximation
+        digits
+            .chars()
+            .filter_map(|c| c.to_digit(radix))
+            .fold(0.0, |acc, digit| acc * radix as f64 + digit as f64)
+    };
+    if negative { -magnitude } else { magnitude }
 }
 
 /// ECMAScript parseFloat on an already stringified argument: skip leading white space, then
